@@ -1016,6 +1016,18 @@ func guards(c *vh.Ctx) []Case {
 	// commitment: len(data[1:]) < 128; wanted hashes multiple of 32
 	cm := sample(r, "commitment", 2)
 	cut("commitment", cm, 97, 128, 129, 130, 129+31, 129+32, 129+33, len(cm)-1, len(cm), len(cm)+1)
+	// commitment messages shorter than the minimum whose (zero padded) point window is valid
+	// about every other time: reaches the code behind the guard if the guard is weakened
+	for i := 0; i < 10; i++ {
+		cm := sample(r, "commitment", 0)
+		cut("commitment-short", cm, 101, 113, 127, 128)
+		an := sample(r, "announcement", 0)
+		cut("announcement-short", an, 90, 97, 98, 99)
+		fc := sample(r, "fullchallenge", 0)
+		cut("fullchallenge-short", fc, 200, 250, 256)
+		tc := sample(r, "txchallenge", 0)
+		cut("txchallenge-short", tc, 100, 104, 105)
+	}
 	// transaction challenge: len(data[1:]) < 105
 	tc := sample(r, "txchallenge", 2)
 	cut("txchallenge", tc, 104, 105, 106, 107, 109, 110, 111, len(tc)-1, len(tc), len(tc)+1)
